@@ -68,8 +68,11 @@ None == -1
 --------------------------------------------------------------------------
 (* Key state *)
 
-St0   == [avail |-> FALSE, old |-> FALSE, signer |-> FALSE,
-          present |-> FALSE, at_parent |-> FALSE]
+\* (record fields are written in alphabetical order throughout: TLC sorts the
+\* fields of a record in place the first time it is compared, which is not
+\* safe for values shared between workers unless it is a no-op)
+St0   == [at_parent |-> FALSE, avail |-> FALSE, old |-> FALSE,
+          present |-> FALSE, signer |-> FALSE]
 Fresh == [St0 EXCEPT !.avail = TRUE]
 Stale(s) == s.old /\ ~s.signer /\ ~s.present /\ ~s.at_parent
 
@@ -78,9 +81,10 @@ Stale(s) == s.old /\ ~s.signer /\ ~s.present /\ ~s.at_parent
 NewKey(k, avail, tag) ==
   [a |-> [St0 EXCEPT !.avail = avail],
    b |-> IF KType(k) = "csk" THEN [St0 EXCEPT !.avail = avail] ELSE St0,
-   vis |-> None, dsv |-> None, rsv |-> None,   \* ages of visible, ds_visible, rrsig_visible
-   pubd |-> FALSE, wd |-> FALSE,               \* published / withdrawn is Some
-   tag |-> tag, dec |-> FALSE]
+   dec |-> FALSE,
+   dsv |-> None,                \* ages of visible (vis), ds_visible, rrsig_visible
+   pubd |-> FALSE,              \* published / withdrawn (wd) is Some
+   rsv |-> None, tag |-> tag, vis |-> None, wd |-> FALSE]
 
 \* the zone-signing role state
 ZS(k, key) == IF KType(k) = "csk" THEN key.b ELSE key.a
@@ -220,7 +224,7 @@ ConflictErrs(rt, rs) ==
   LET bad == Active(rs) \ Compat(rt)
   IN {IF r = rt THEN "WrongStateForRollOperation" ELSE "ConflictingRollInProgress" : r \in bad}
 
-Out(res, ks, rs, acts) == [res |-> res, keys |-> ks, rolls |-> rs, acts |-> acts]
+Out(res, ks, rs, acts) == [acts |-> acts, keys |-> ks, res |-> res, rolls |-> rs]
 Refuse(res, ks, rs) == Out(res, ks, rs, <<>>)
 
 StartRoll(rt, old, new, ks, rs) ==
@@ -476,11 +480,11 @@ Outcomes(dev, ks, rs, o) ==
 Do(o) == \E r \in Outcomes(Dev, keys, rolls, o) :
            /\ keys' = r.keys
            /\ rolls' = r.rolls
-           /\ last' = [op |-> o, res |-> r.res, acts |-> r.acts]
+           /\ last' = [acts |-> r.acts, op |-> o, res |-> r.res]
 
 KSInit == /\ keys = << >>
           /\ rolls = [rt \in RollTypes |-> Idle]
-          /\ last = [op |-> [op |-> "new"], res |-> "ok", acts |-> <<>>]
+          /\ last = [acts |-> <<>>, op |-> [op |-> "new"], res |-> "ok"]
 
 --------------------------------------------------------------------------
 (* Properties of the state machine itself (X01.2, X01.3) *)
